@@ -32,7 +32,7 @@ ASSUMPTIONS = [
     "python's own constructor (dataclasses.asdict(C(*a, **k)) / C(*a, **k)._asdict()) is the binder oracle, compared as a mapping.",
     "Constructor calls that omit fields or bind a field twice are not generated (python raises TypeError; the statement is silent).",
 ]
-BUDGET = {"quick": (6, 500), "thorough": (16, 6000)}
+BUDGET = {"quick": (6, 800), "thorough": (16, 6000)}
 EXHAUSTIVE_NOTE = "(b): dataclass and NamedTuple with 1-4 fields x every positional/keyword split x every keyword order (+ unknown keyword, surplus argument), fully enumerated"
 EXHAUSTIVE_SHARDS = {"quick": 4, "thorough": 8}
 
@@ -47,7 +47,7 @@ def _comp_case(draw, maxdepth):
                     first=draw(st.booleans()), members=typed.MEMBERS)
     cx = typed.Ctx(draw, cfg)
     p = cx.fresh([])
-    env = [("ds", typed.S(typed.EVT)), (p, typed.EVT)]
+    env = [(p, typed.EVT)]
     depth = draw(st.integers(1, maxdepth))
     src, st_ = typed._source(cx, [(p, typed.EVT)])
     v = cx.fresh(env)
@@ -69,6 +69,8 @@ def _comp_case(draw, maxdepth):
     else:
         body = f"({comp}, {typed.gen(cx, env, typed.F, depth - 1)})"
     form = draw(st.sampled_from(["sugar", "sugar", "string", "callable"]))
+    if form == "callable" and "ds" in body.replace("nds", ""):
+        form = "string"  # the root dataset would be a (non-transportable) captured variable of the callable
     return {"kind": "comp", "param": p, "body": body, "data": draw(typed.dataset()), "form": form, "naming": naming}
 
 
@@ -192,9 +194,10 @@ def _dc_module(case):
     pos = [ARGS[f] for f in fields[: case["pos"]]]
     if case["bad"] == "surplus":
         pos.append("99")
-    args = pos + [f"{f}={ARGS[f]}" for f in case["kw"]]
+    kws = [f"{f}={ARGS[f]}" for f in case["kw"]]
     if case["bad"] == "unknown":
-        args.append("zz=1")
+        kws.insert(0 if len(fields) % 2 == 0 else len(kws), "zz=1")  # unknown keyword first or last
+    args = pos + kws
     return cls + f"def build(ds):\n    return ds.Select(lambda e: C({', '.join(args)}))\n", f"C({', '.join(args)})"
 
 
